@@ -58,6 +58,9 @@ CHECKS = {
  "C18": dict(technique="model-based PBT: expected traversal from a generic walker over the reference parser tree, per-(parent kind, slot) attribution; edit plans (delete / replace / skip) with expected events and resulting tree; chained and dispatching visitors",
              text="Generated documents are visited with recording plain, dispatching (all hooks by reflection) and chained visitors; events must be enter/leave once per non-name node, nested, siblings in source order; a no-op visit leaves the tree equal; one drawn deletion / replacement / SkipNode must change exactly that node and its events; the three ast_transforms change only what they announce.",
              note="Trusted: vlib/ref/parser.py trees, expected-event derivation in props/c18.py. 21 traversal gaps pinned by the test-suite are listed as known findings by (kind, slot).", ref="3/C18"),
+ "C19": dict(technique="differential PBT against a reference depth function over generated recursive selections with fragments at every level; exhaustive enumeration of fragment wrappings for small selections (thorough)",
+             text="For generated documents, variable values, limits and operation_name filters the rule (called directly and through validate_ast) must report exactly the considered operations whose reference depth exceeds the limit and never raise; the reference follows the class docstring (fragments transparent, skipped selections ignored, merged keys take the maximum).",
+             note="Trusted: ref_depths() in props/c19.py, self-checked on the docstring example.", ref="3/C19"),
 }
 ALL = ["C%02d" % i for i in range(1, 21)]
 NA_REASON = "check not built yet (work in progress; see DESIGN.md section 3 for the planned design)"
